@@ -87,6 +87,22 @@ func canonOne(sb *strings.Builder, m *regexp2.Match) {
 
 const maxWalk = 3000
 
+// opCtx collects what an operation leaves behind for the oracles: values it returned (re-read at the end
+// of the script) and the start time of its last public call (a walk is a sequence of calls, each of which
+// gets its own deadline).
+type opCtx struct {
+	kept      []kept
+	lastStart int64
+	calls     int
+}
+
+func (c *opCtx) callStarts() {
+	if c != nil {
+		c.lastStart = vsim.VNow()
+		c.calls++
+	}
+}
+
 type kept struct {
 	m     *regexp2.Match
 	e     error // a returned error: its text must stay the same, too
@@ -94,7 +110,11 @@ type kept struct {
 }
 
 // canonWalk serialises a match and the whole FindNextMatch chain behind it.
-func canonWalk(re *regexp2.Regexp, m *regexp2.Match, err error, keep *[]kept, keepMatches bool) string {
+func canonWalk(re *regexp2.Regexp, m *regexp2.Match, err error, ctx *opCtx, keepMatches bool, idleNs int64) string {
+	var keep *[]kept
+	if ctx != nil {
+		keep = &ctx.kept
+	}
 	var sb strings.Builder
 	walk := 0
 	for {
@@ -118,6 +138,10 @@ func canonWalk(re *regexp2.Regexp, m *regexp2.Match, err error, keep *[]kept, ke
 			sb.WriteString("RUNAWAY")
 			return sb.String()
 		}
+		if idleNs > 0 && walk%2 == 1 {
+			vsim.Sleep(time.Duration(idleNs)) // the caller takes its time between two matches
+		}
+		ctx.callStarts()
 		m, err = re.FindNextMatch(m)
 	}
 }
@@ -144,7 +168,12 @@ func noteErr(keep *[]kept, err error) {
 	}
 }
 
-func execOp(re *regexp2.Regexp, op *Op, keep *[]kept) (out string) {
+func execOp(re *regexp2.Regexp, op *Op, ctx *opCtx) (out string) {
+	var keep *[]kept
+	if ctx != nil {
+		keep = &ctx.kept
+	}
+	ctx.callStarts()
 	keepMatches := op.Keep
 	orErr := func(val string, err error) string {
 		noteErr(keep, err)
@@ -179,13 +208,13 @@ func execOp(re *regexp2.Regexp, op *Op, keep *[]kept) (out string) {
 		return orErr(fmt.Sprint(ok), err)
 	case OpFindString:
 		m, err := re.FindStringMatch(in)
-		return canonWalk(re, m, err, keep, keepMatches)
+		return canonWalk(re, m, err, ctx, keepMatches, op.IdleNs)
 	case OpFindRunes:
 		m, err := re.FindRunesMatch([]rune(in))
-		return canonWalk(re, m, err, keep, keepMatches)
+		return canonWalk(re, m, err, ctx, keepMatches, op.IdleNs)
 	case OpFindStringAt:
 		m, err := re.FindStringMatchStartingAt(in, op.StartAt)
-		return canonWalk(re, m, err, keep, keepMatches)
+		return canonWalk(re, m, err, ctx, keepMatches, op.IdleNs)
 	case OpFindRunesAt:
 		r := []rune(in)
 		at := op.StartAt
@@ -193,7 +222,7 @@ func execOp(re *regexp2.Regexp, op *Op, keep *[]kept) (out string) {
 			at = len(r)
 		}
 		m, err := re.FindRunesMatchStartingAt(r, at)
-		return canonWalk(re, m, err, keep, keepMatches)
+		return canonWalk(re, m, err, ctx, keepMatches, op.IdleNs)
 	case OpFindAllString:
 		r, err := re.FindAllStringIndex(in, op.N)
 		return orErr(fmt.Sprint(r), err)
@@ -232,6 +261,7 @@ func execOp(re *regexp2.Regexp, op *Op, keep *[]kept) (out string) {
 				sb.WriteString("1:")
 				canonOne(&sb, m1)
 				sb.WriteString("|")
+				ctx.callStarts()
 				m1, e1 = re.FindNextMatch(m1)
 			}
 			if e2 != nil {
@@ -241,6 +271,7 @@ func execOp(re *regexp2.Regexp, op *Op, keep *[]kept) (out string) {
 				sb.WriteString("2:")
 				canonOne(&sb, m2)
 				sb.WriteString("|")
+				ctx.callStarts()
 				m2, e2 = re.FindNextMatch(m2)
 			}
 		}
